@@ -37,12 +37,47 @@ pub fn decode_sys(low: u64, high: u64) -> SysDesc {
     }
 }
 
+/// the 16 bytes the CPU reads at the selector once the descriptor sits in a descriptor table - appended, or handed over as
+/// the last raw entries - and after a further append behind it: the same two words
+fn tss_in_table(r: &mut Rep, case: &str, lo: u64, hi: u64) {
+    use x86_64::structures::gdt::GlobalDescriptorTable;
+    let follow = Descriptor::UserSegment(DescriptorFlags::USER_DATA.bits());
+    let built = catch(|| {
+        let mut a = GlobalDescriptorTable::<8>::empty();
+        a.append(Descriptor::kernel_code_segment());
+        let sel = a.append(Descriptor::SystemSegment(lo, hi));
+        let mut b = GlobalDescriptorTable::<8>::from_raw_entries(&[0, DescriptorFlags::KERNEL_CODE64.bits(), lo, hi]);
+        let mut out = vec![(sel.index() as usize, a.entries().iter().map(|e| e.raw()).collect::<Vec<u64>>(), a.limit())];
+        out.push((2, b.entries().iter().map(|e| e.raw()).collect(), b.limit()));
+        a.append(follow);
+        b.append(follow);
+        out.push((sel.index() as usize, a.entries().iter().map(|e| e.raw()).collect(), a.limit()));
+        out.push((2, b.entries().iter().map(|e| e.raw()).collect(), b.limit()));
+        out
+    });
+    match built {
+        Ok(v) => {
+            for (k, (idx, words, limit)) in v.into_iter().enumerate() {
+                let want_len = if k < 2 { 4 } else { 5 };
+                if idx != 2 || words.len() != want_len || words[2] != lo || words[3] != hi || limit as usize != 8 * want_len - 1 || (k >= 2 && words[4] != DescriptorFlags::USER_DATA.bits()) {
+                    r.viol("C15|tss_segment|descriptor-in-a-descriptor-table-is-not-the-16-bytes-produced", case, &format!("{} table: index {} words {:x?} limit {}", ["appended", "from-raw-entries", "appended+1", "from-raw-entries+1"][k], idx, words, limit));
+                    break;
+                }
+            }
+        }
+        Err(()) => r.viol("C15|tss_segment|descriptor-cannot-be-placed-in-a-table", case, ""),
+    }
+}
+
 pub fn tss_desc_case(r: &mut Rep, p: u64) {
     r.ev(p >> 24 != 0);
     let d = unsafe { Descriptor::tss_segment_unchecked(p as *const TaskStateSegment) };
     let case = format!("tssdesc {:#x}", p);
     match d {
         Descriptor::SystemSegment(lo, hi) => {
+            if p.count_ones() <= 2 || p.count_zeros() <= 2 {
+                tss_in_table(r, &case, lo, hi);
+            }
             let x = decode_sys(lo, hi);
             if x.base != p {
                 r.viol("C15|tss_segment|base-wrong", &case, &format!("base {:#x}", x.base));
